@@ -53,7 +53,8 @@ impl<'b, 'c> MessageBuilder<'b, 'c> {
             flags,
             counts: SectionCounts::default(),
         };
-        // TODO: Reset the name compressor.
+        // Whatever the compressor remembers is from another message.
+        *compressor = NameCompressor::new();
         Self {
             message,
             offset: 0,
@@ -146,7 +147,7 @@ impl<'b> MessageBuilder<'b, '_> {
     pub fn truncate(&mut self) {
         self.message.header.flags.set_tc(true);
         self.offset = 0;
-        // TODO: Reset the name compressor.
+        *self.compressor = NameCompressor::new();
     }
 
     /// Append a message item.
@@ -184,13 +185,19 @@ impl<'b> MessageBuilder<'b, '_> {
         }
 
         // Try to build the item.
-        self.offset = item.build_in_message(
+        match item.build_in_message(
             &mut self.message.contents,
             self.offset,
             self.compressor,
-        )?;
-
-        // TODO: Reset the name compressor in case of failure.
+        ) {
+            Ok(offset) => self.offset = offset,
+            Err(err) => {
+                // Names of the item may already have been registered with
+                // the compressor; they are not part of the message.
+                self.compressor.truncate(self.offset);
+                return Err(err.into());
+            }
+        }
 
         // Update the section counts, now that we have succeeded.
         counts[section] += 1;
